@@ -203,6 +203,13 @@ def r3_folds(ctx):
                         sz_ok = False if shuffled else True
                         if shuffled:
                             why = "block sizes come from np.unique(..., return_counts=True) (sorted-id order) but the block ids were shuffled afterwards: sizes[i] no longer counts block_ids[i]"
+                    bc = [x for x in walk(sizes) if isinstance(x, tuple) and x and x[0] == "call" and callee(x) == "numpy.bincount" and x[2] and x[2][0] == labels] if isinstance(sizes, tuple) else []
+                    if bc and sz_ok is None:
+                        # np.bincount(labels) counts in the order of the label VALUES: like return_counts it is aligned with the sorted ids only
+                        shuffled = any(e.kind == "call" and callee(e.data[0]) == ".shuffle" for e in p.events)
+                        sz_ok = False if shuffled else None
+                        if shuffled:
+                            why = "block sizes come from np.bincount(labels) (label order) but the block ids were shuffled afterwards: sizes[i] no longer counts block_ids[i]"
                     if isinstance(sizes, tuple) and sizes[0] == "comp":
                         el = sizes[2]
                         sz_ok = sizes[3] == uniq or canon(sizes[3]) == canon(uniq)
@@ -377,6 +384,21 @@ def r7_partition_guards(ctx):
         ctx.check("R7", qn + "|searchsorted-side-right", True if side == const("right") else (False if side in (None, const("left")) else None),
                   "split points are inserted to the right (a part that reaches the ideal sum exactly keeps its last element)",
                   bad="searchsorted(side='left'): parts that hit the ideal sum exactly lose their last element", fn=qn)
+        # premise of "a split point at n is impossible": the searched values are k * (total // parts) for k < parts, all strictly below the
+        # total (floor division).  With a rounded or true quotient (parts - 1) * ideal can reach the total, side="right" then returns n and the
+        # LAST part is empty - which neither of the two guards below excludes.
+        probe = v[2][1] if len(v[2]) > 1 else None
+        cs = v[2][0] if v[2] else None
+        total = ("sub", cs, const(-1)) if cs is not None else None
+        floor_ok = None
+        if probe is not None and total is not None:
+            quot = [x for x in walk(probe) if isinstance(x, tuple) and x and x[0] == "binop" and x[1] in ("//", "/") and x[2] == total and x[3] == ("param", "parts")]
+            if quot and all(x[1] == "//" for x in quot) and not any(isinstance(x, tuple) and x and x[0] == "call" and callee(x) in ("builtins.round", "numpy.round", "numpy.rint", "numpy.ceil", "math.ceil") for x in walk(probe)):
+                floor_ok = True
+            elif quot:
+                floor_ok = False
+        ctx.check("R7", qn + "|ideal-sum-is-floored", floor_ok, "the searched sums are multiples of total // parts (strictly below the total for k < parts), so no split point can equal n",
+                  bad="the ideal part sum is not the floor of total / parts: (parts - 1) * ideal can reach the total, searchsorted(side='right') then returns n and np.split leaves the last fold empty", fn=qn)
         guards = [c for c, val in p.conds if val is False]
         dup = any(any(x[0] == "call" and callee(x) == "numpy.unique" and x[2] == (v,) for x in walk(g)) or any(x[0] == "call" and callee(x) == "numpy.diff" and x[2] and x[2][0] == v for x in walk(g)) for g in guards)
         zero = False
